@@ -74,6 +74,18 @@ CHECKS = {
    tech="TLA+ spec JtHookAst.Transform (the only permitted differences, on module skeletons) with theorems checked by TLC on the bounded skeleton universe; translation validation per program: TLC decides Transform(skeleton(original)) = skeleton(transformed), plus strip-and-compare of the full AST incl. every position attribute, compile, compiler flags, docstring, co_firstlineno of functions",
    text="Each program - modules rendered from every TLC-enumerated skeleton (prologues over docstring / constant / __future__ / other statements, forests of def / async def / class nodes with 0..2 decorators wrapped in if / try / with / match, PEP 695 generics) and corpus files (the repository, a seeded sample of 1200 stdlib and site-packages files in the quick tier, all of them in the thorough tier) - is pushed through the real JaxtypingTransformer; TLC validates the skeleton law (one import after docstring and __future__ imports, decorator innermost on every def, outermost on every class, nothing on async defs) and the harness validates that nothing else differs and that the result compiles.",
    note="(ii)-(iv) are Python-side checks; the specification contributes the rule of which differences are permitted and TLC evaluates it on abstractions. The class-body code object of a class with user decorators starts one or more lines later than before (the added outermost decorator carries the class statement's position): outside the property statement, noted in DESIGN.md."),
+ "C03": dict(cat="model_checking", sec="5 C03",
+   tech="TLA+ spec JtDtypes (the documented category tree by dtype KIND, precision-specific singletons, user categories with exact strings and anchored patterns; lattice identities as ASSUMEs); the finite space of (dtype, category, backend) triples is enumerated completely on the real libraries and TLC decides Accepts for every row (Rows_JtDtypes)",
+   text="Every NumPy scalar type incl. platform aliases and every ml_dtypes type, JAX eager arrays, tracers and PRNG keys, TensorFlow dtypes incl. quantised ones, duck arrays with string and torch-style dtypes and a structured dtype are classified by the library's own metadata (never by jaxtyping's tables) and checked against all 34 exported categories; 7 user categories x 12 names; the expected verdict is computed by TLC from the documented hierarchy.",
+   note="Finite space, enumerated completely (exhaustive=true). PyTorch / MLX not importable here: torch-style duck array only. Fixed by this work: D10a/b/c (see known_findings.json)."),
+ "C15": dict(cat="model_checking", sec="5 C15",
+   tech="TLA+ specs JtDtypes (NestOK / NestAccepts = intersection, ScalarSurvives) + JtArray (shape of 's2 s1'); TLC decides construction outcome and the acceptance vector of the documented right-hand side for every ordered category pair x dim-string pair; union / TypeVar / alias laws compared as identities between two really-built annotations",
+   text="For all 1156 ordered pairs of exported categories and 10 (quick) / 81 (thorough) dim-string pairs, D2[D1[A,s1],s2] must raise ValueError exactly when the intersection is empty or both parts have a multi-axis specifier and otherwise accept exactly what (D1 intersect D2)[A,'s2 s1'] accepts on 45 (dtype, shape) probes, also three levels deep; Python scalar types survive exactly per ScalarSurvives; 60+ union / X|Y / TypeVar (bound, constraints, free) / Scalar / ScalarLike / PRNGKeyArray identities hold on 20 probe values.",
+   note="Meaning compared through probes. Whether BFloat16 contains Python's float is treated as unspecified. Regex user categories excluded from intersection."),
+ "C20": dict(cat="model_checking", sec="5 C20",
+   tech="TLA+ model JtPickle of the reducer (RoundTrip proved for effective-dtypes + by-reference sentinels; outer-category reducer and by-value sentinels refuted by TLC); every annotation built for real and sent through pickle (2 protocols), cloudpickle, copy, deepcopy, a reuse history, and pickle / cloudpickle into another process; TLC decides the acceptance vector of each reconstruction from the annotation's definition (Rows_JtDtypes)",
+   text="Each reconstruction's acceptance vector over 45 (dtype, shape) probes must equal what TLC computes from the definition (intersection of the nested categories, dims incl. '_' / '...' / *v), must equal the original's, and the original's must be unchanged afterwards - in the same process and in a fresh interpreter.",
+   note="Fixed by this work: D5 (nested dtypes lost), D15 (cloudpickle corrupted the original's sentinels). 250 nested pairs sampled in the quick tier."),
 }
 NOT_YET = {}
 
@@ -106,7 +118,7 @@ def main():
                      "kind_free_text": "explicit TLA+ specification family checked with TLC 1.8; bound to the implementation by replaying TLC-enumerated rows/behaviours into the code and by validating recorded executions against the specification"}],
         "checks": checks,
         "not_applicable": na,
-        "notes": "fix: commits in /repo (see known_findings.json): D1 90db414, D2 2bf5538, D3 cebd2d4, D4 9f1396f, D5 63c6bc7, D6 860ec5b, D7 ace73f0, D12 b286001",
+        "notes": "fix: commits in /repo (see known_findings.json): D1 90db414, D2 2bf5538, D3 cebd2d4, D4 9f1396f, D5 63c6bc7, D6 860ec5b, D7 ace73f0, D12 b286001, D13 9d06957, D15 79523f2, D10a c7e018f, D10b 3391679, D10c a225f7f. Known (unrepaired) findings: D8, D9, D14.",
     }
     json.dump(m, open(os.path.join(HERE, "MANIFEST.json"), "w"), indent=1)
     print("checks:", [c["property_id"] for c in checks], "not_applicable:", len(na))
